@@ -335,6 +335,8 @@ prop("C07",
 # assertions OFF (profile `relchk`).
 for _pid in ("C01", "C02", "C03", "C15"):
     PROPS[_pid]["stages"].append({"name": "release_overflow_checks", "build": "relchk", "bin": PROPS[_pid]["stages"][0]["bin"]})
+    # ... and on a release build for the host CPU (-C target-cpu=native: fma, avx2, ... enabled)
+    PROPS[_pid]["stages"].append({"name": "release_native_cpu", "build": "native", "bin": PROPS[_pid]["stages"][0]["bin"]})
 for _pid, _p in PROPS.items():
     if not any(s["build"] == "release" for s in _p["stages"]):
         _main = [s for s in _p["stages"] if s["name"] == "main"][0]
